@@ -135,11 +135,19 @@ check("C16", "model_checking",
       "Batcher (records_per_batch 1..4, total 1..6): the explorer enumerates every interleaving of {record i requests validation "
       "(any arrival permutation), poll a woken wait, batch b's check completes with verdict ok/fail (any batch order)} on the real "
       "Batcher with a waker-tracking executor; oracle = reference model of batch membership. Plus every misuse history "
-      "(records 0..k arrived, then validate_record(x) for every x up to total+2*rpb+1) for totals <= 9. "
+      "(records 0..k arrived, then validate_record(x) for every x up to total+2*rpb+1) for totals <= 9. Cancellation: for batch "
+      "sizes 2,3 and 1-2 batches (+ a partial one), every arrival order, then the future that runs a batch's check is dropped "
+      "before the verdict: no other record of that batch may be released with success, the other batches (either verdict) are "
+      "released as usual. Stream adapter (part validated-join): DZKPValidator::validated_seq_join over real 64-bit multiplications "
+      "of three helpers, 4-6 (8) records in batches of 2/4, every item of the stream collected; honest: all Ok; one bit of one "
+      "multiplication message flipped (every chunk of every multiplication channel x first/last (every) byte): on each honest "
+      "helper the items of one batch carry one verdict (no record of a failed batch is yielded as Ok) and some honest helper fails. "
       "states = executions; transitions = choice points.",
       [{"name": "batcher", "config": "A", "test": "protocol::context::verif::c16::run",
-        "require": {"any": {"max_distinct_arrival_orders": 24, "out_of_order_batch_completions": 10}}}],
-      assumptions=["the batch check closure is modelled by a gate the harness completes; the real DZKP/MAC checks are C03/C04"],
+        "require": {"any": {"max_distinct_arrival_orders": 24, "out_of_order_batch_completions": 10, "cancellation_executions": 100}}},
+       {"name": "validated-join", "config": "A", "test": "verif::c16v::run", "timeout": {"quick": 900, "thorough": 3600},
+        "require": {"any": {"validated_join_honest_runs": 3, "validated_join_faults_rejected": 20}}}],
+      assumptions=["the batch check closure is modelled by a gate the harness completes in the batcher part; the real DZKP check runs in the validated-join part (its soundness is C03)"],
       exhaustive=True, engine="E1 choice",
       technique="stateless exhaustive choice-tree exploration of the real Batcher (all arrival permutations x completion orders x "
                 "verdict vectors) against a reference model; exhaustive misuse-history enumeration",
